@@ -29,6 +29,16 @@ def step (args : List String) : String :=
       let ds := sts.map fun s => ",".intercalate (sortStrings (describe initial s))
       "states " ++ "|".intercalate (sortStrings ds.eraseDups)
     | none => "bad-op"
+  | "dbstates" :: _ =>
+    -- `crash dbstates`: for a folder edit on the database backend, which (rows, log) combinations a crash can leave:
+    -- first letter = secret rows before/after, second = event log before/after
+    let s0 : DB := { vault := [[1]], log := [[1]] }
+    let after : DB := { vault := [[1], [2]], log := [[1], [2]] }
+    let sts := dbCrashStates s0 (dbFolderEdit after.vault [2])
+    let code (t : DB) : String :=
+      (if t.vault = s0.vault then "b" else if t.vault = after.vault then "a" else "x") ++
+      (if t.log = s0.log then "b" else if t.log = after.log then "a" else "x")
+    "dbstates " ++ "|".intercalate (sortStrings (sts.map code).eraseDups)
   | "scan" :: rest =>
     -- `crash scan hex=<bytes after the header>`: records read by load_tree and bytes cut off
     match (argOf rest "hex").bind parseHex with
